@@ -184,7 +184,7 @@ def _run_history(case):
             srv.down_exc = _outage_exc(case.get("outage"))
             op = c[0]
             try:
-                if op == "set": r = ["bool", bool(await be.set(c[1], dec(c[2]), expire=c[3] or None, exist=c[4]))]
+                if op == "set": r = ["bool", bool(await be.set(c[1], dec(c[2]), expire=c[3] or (0 if len(c[1]) % 2 else None), exist=c[4]))]
                 elif op == "set_many": r = ["unit" if (await be.set_many({k: dec(v) for k, v in c[1]}, expire=c[2] or None)) is None else "odd"]
                 elif op == "get":
                     v = await be.get(c[1], default=DEFAULT); r = ["val", None if isinstance(v, str) and v == DEFAULT else [enc(v)]]
